@@ -26,6 +26,10 @@ Theorem quote_is_one_word : forall words p q,
   sh_words (join_sp (words ++ [q])) = Some (words ++ [p]).
 Proof. exact L_quote_is_one_word. Qed.
 
+(* hence no two paths are quoted alike *)
+Theorem single_injective : forall p1 p2 q, single p1 = Ok q -> single p2 = Ok q -> p1 = p2.
+Proof. exact L_single_injective. Qed.
+
 (* ---- argument classification and the ssh command line ----------------------------------------------------------- *)
 
 (* whenever prepare_invocation succeeds, its arguments are option_words (no URL text but the port number) followed by
